@@ -934,6 +934,7 @@ pub fn run(tier: Tier) -> i32 {
     let grid_exhaustive = report.coverage.get("exhaustive").and_then(|v| v.as_bool()).unwrap_or(false);
     report.set("exhaustive", serde_json::json!(family_exhaustive && grid_exhaustive));
     if let Some(s) = family_samples { report.set("engine_family_samples", s); }
+    crate::drivers::run_c16_part(&mut report);
     report.finish()
 }
 
